@@ -628,13 +628,15 @@ theorem exchange_tr (net : Net) (a b : XRes) (u : S_forward_UpstreamPlain) (hu :
     (rename_i m; cases m.tc <;> simp)
 
 /-- **`exchangeNet` retries once, on a fresh connection, iff the first attempt ended with an expected
-connection error**; the second attempt's result is then final. -/
+connection error**; the second attempt's result is then final.  (Since the C06 repair the request is
+packed again before the retry; `n2` is the length that second `packReq` returned.) -/
 theorem exchangeNet_retry_once (u : S_forward_UpstreamPlain) (ctx req gb : Option Int) (nw : String)
-    (buf : List Int) (n : Int) (c1 c2 : Option S_pool_Conn) (p1 p2 : Option Int × Option String)
+    (buf : List Int) (n n2 : Int) (c1 c2 : Option S_pool_Conn) (p1 p2 : Option Int × Option String)
     (exp : Bool) :
-    let r := UpstreamPlain_exchangeNet u ctx req nw gb buf (n, none) (c1, none) p1 exp (c2, none) p2
+    let r := UpstreamPlain_exchangeNet u ctx req nw gb buf (n, none) (c1, none) p1 exp (n2, none) (c2, none) p2
     (r.1, r.2.1) = (if exp then p2 else p1)
-      ∧ count "processConn" r.2.2 = (if exp then 2 else 1) ∧ count "Create" r.2.2 = (if exp then 1 else 0) := by
+      ∧ count "processConn" r.2.2 = (if exp then 2 else 1) ∧ count "Create" r.2.2 = (if exp then 1 else 0)
+      ∧ count "packReq" r.2.2 = (if exp then 2 else 1) := by
   by_cases ht : nw = "tcp" <;> cases exp <;> simp [UpstreamPlain_exchangeNet, ht, count, names]
 
 /-! ## `annotate`, `Handler.exchange` -/
